@@ -1,10 +1,23 @@
 #!/usr/bin/env python3
 """Writes MANIFEST.json from the table below (run after editing)."""
 import json
-CLAIMED = {
- "C01": ("proof", "T1: the regenerated binary64 model of Epoch(y,m,d)/get_date is evaluated by the Coq kernel on every civil date -4712..6000 against an independent day count (proved bijective for all years by lia) and lifted to forall-theorems; bit-exact correspondence model vs implementation every run.",
-         "kernel computation over the full finite domain (vm_compute reflection) + lia on the calendar spec + generated model + bit-exact differential correspondence", "8/C01"),
-}
+import importlib, os, sys
+sys.path.insert(0, os.path.dirname(os.path.abspath(__file__)))
+CLAIMED = {}
+for i in range(1, 21):
+    pid = "C%02d" % i
+    if not os.path.exists(os.path.join("vlib", "props", pid + ".py")): continue
+    try:
+        P = importlib.import_module("vlib.props." + pid)
+    except Exception as e:
+        print("cannot import", pid, e); continue
+    m = getattr(P, "MANIFEST", None)
+    if not m or not m.get("claimed", True): continue
+    CLAIMED[pid] = (m.get("category", "proof"), m["text"], m["technique"], m.get("design_ref", "8/" + pid))
+NA = {}
+if os.path.exists("not_applicable.json"):
+    import json as _j
+    NA = _j.load(open("not_applicable.json"))
 ALL = ["C%02d" % i for i in range(1, 21)]
 NA_REASON = "not yet covered by a theorem in this development (work in progress; no check is claimed rather than a non-proof technique substituted)"
 m = {
@@ -30,6 +43,6 @@ for p in ALL:
             "level_note": "Trusted: Coq kernel incl. vm_compute and primitive floats; stdlib axiom FloatAxioms.SF2Prim_Prim2SF (and the real-number/classical axioms where Print Assumptions lists them); py2coq translator and the Python-semantics library (validated each run by bit-exact correspondence, not proved); libm as oracle; hand-written specs.",
             "technique": tech})
     else:
-        m["not_applicable"].append({"property_id": p, "reason": NA_REASON})
+        m["not_applicable"].append({"property_id": p, "reason": NA.get(p, NA_REASON)})
 json.dump(m, open("MANIFEST.json", "w"), indent=1)
 print("claimed:", sorted(CLAIMED))
